@@ -87,6 +87,10 @@ fn main() {
                 }
             };
             for pos in positions {
+                if replay.is_none() && t0.elapsed().as_secs() >= budget_s {
+                    report.note(format!("time budget reached inside size {} (limit {})", size, limit));
+                    break 'sizes;
+                }
                 let sender = match pos {
                     Some(j) => keys[j],
                     None => 999_999,
